@@ -262,8 +262,8 @@ def run(tier):
     p = dict(ns=[3], nsrc=[4], batch_opts=[(4, 2, 2), (3, 0, 2), (4, 1, 2)])
     timeout = 150
   else:
-    p = dict(ns=[1, 2, 3, 4, 5], nsrc=[3, 5, 6], batch_opts=[(4, 2, 2), (3, 0, 2), (5, 2, 3), (4, 3, 1), (6, 2, 2)])
-    timeout = 1200
+    p = dict(ns=[1, 2, 3, 4, 5], nsrc=[3, 4, 5], batch_opts=[(4, 2, 2), (3, 0, 2), (5, 2, 3), (4, 3, 1), (6, 2, 2)])
+    timeout = 2400      # slowest obligation on the unchanged tree: ~1000 CPU s (nsrc=6 did not finish)
   rep.bounds(**p, per_condition_timeout_s=timeout,
              note='ns = stream lengths with per-element operator failure bits; nsrc = source lengths with per-element source failure '
                   'bits (read-ahead 1, 2, 8); batch_opts = (rows, fn_batch_size, batch_size)')
